@@ -83,6 +83,8 @@ pub enum SubCmd {
 	CloneSink,
 	DropClone,
 	CheckClosed,
+	/// `timeout(ms, sink.closed())`: does the closed() future resolve?
+	AwaitClosed(u64),
 	/// finish the handler: 0 = Ok(()), 1 = Err (error close notification), 2 = close notification with payload
 	Return(u32),
 	/// drop the pending sink without accept/reject and return
@@ -392,6 +394,12 @@ async fn run_controlled_sub(p: Params<'static>, pending: PendingSubscriptionSink
 				if let Some(s) = &sink {
 					let c = s.is_closed();
 					ev(&ctl, inv, "is_closed", c, None);
+				}
+			}
+			SubCmd::AwaitClosed(ms) => {
+				if let Some(s) = &sink {
+					let r = tokio::time::timeout(Duration::from_millis(ms), s.closed()).await;
+					ev(&ctl, inv, "closed-future", r.is_ok(), None);
 				}
 			}
 			SubCmd::Return(k) => {
